@@ -326,7 +326,9 @@ func K9() *Entry {
 	c.ExcludeFields = []string{"Pref.Meta.Labels", "User.Spec.Meta.Owner.Email"}
 	// an explicit empty list under a full path switches off what the Message.Field key configures
 	c.Validators = map[string][]string{"Meta.Revision": {V("rev")}, "User.Meta.Revision": {}, "Owner.Login": {V("login1"), V("login2")}, "User.Backup.Owner.Login": {}}
-	c.PlanModifiers["Pref.Meta.Revision"] = []string{}
+	// (on a field that is not computed: whether an explicit empty list also switches the UseStateForUnknown default off is not documented)
+	c.PlanModifiers["Owner.Login"] = []string{PM("login-pm")}
+	c.PlanModifiers["User.Backup.Owner.Login"] = []string{}
 	return &Entry{Name: "k9", File: f, Cfg: c, Tags: []string{"multi-path", "multi-root", "embed", "time"}}
 }
 
